@@ -33,3 +33,15 @@ Theorem C02_disjoint_footprints_commute : forall (V mstate draws gstate : Type) 
     (forall k, shr V mstate gstate r12 k = shr V mstate gstate q21 k) /\ gst V mstate gstate r12 = gst V mstate gstate q21.
 Proof. exact disjoint_footprints_commute. Qed.
 Print Assumptions C02_disjoint_footprints_commute.
+
+(* the naming mechanism behind "trace = path of the distribution inside the sim, so new paths never shift old ones": a component enumerated LATER by the
+   object search (an analyzer or connector, or any module appended to its container) never renames -- hence never re-seeds -- a distribution reached earlier,
+   and a component enumerated EARLIER does not either as long as none of its paths reaches that distribution ... *)
+Theorem C02_later_paths_never_rename : forall i l l', In i (map snd l) -> name_of i (l ++ l') = name_of i l.
+Proof. exact name_of_later_paths. Qed.
+Theorem C02_earlier_unrelated_paths_never_rename : forall i l l', ~ In i (map snd l') -> name_of i (l' ++ l) = name_of i l.
+Proof. exact name_of_earlier_unrelated_paths. Qed.
+(* ... but an earlier component that merely holds a reference to a later module does (listed finding reference-holder-renames-dists) *)
+Theorem C02_earlier_reference_renames_refuted : exists l l' i, In i (map snd l) /\ name_of i (l' ++ l) <> name_of i l.
+Proof. exact name_of_earlier_reference_renames. Qed.
+Print Assumptions C02_later_paths_never_rename. Print Assumptions C02_earlier_unrelated_paths_never_rename. Print Assumptions C02_earlier_reference_renames_refuted.
